@@ -9,6 +9,10 @@ verus! {
 //@include iter.rs
 //@include cutmodel.rs
 
+// usize::abs_diff (vocabulary for rewrites of the label-count test)
+pub assume_specification[ usize::abs_diff ](a: usize, b: usize) -> (r: usize)
+    ensures r as int == (if a >= b { a - b } else { b - a });
+
 pub type T = ${T};
 pub type TI = ${TI};
 pub type T2 = Option<i64>;       // label type (A-MONO): any IsNone + Clone type; `label.clone()` of a Copy value is the value (R12)
